@@ -76,6 +76,12 @@ class StateVector(np.ndarray):
         super().__setstate__(state["basestate"])
         object.__setattr__(self, "_data", state["data"])
 
+    def __deepcopy__(self, memo):
+        """For copy.deepcopy(): numpy would duplicate the coordinates only, and leave the
+        additional fields (covariance, maneuvers...) shared with the original
+        """
+        return self.copy()
+
     @property
     def base(self):
         # An unpickled array owns its memory and has no base array to refer to
